@@ -846,13 +846,18 @@ fn cmd_c04(seed: u64, n: u64, ops_path: &str, impl_path: &str) -> Result<()> {
         modules.push((trampoline(&wasm)?, g.apis.clone(), true, None));
     }
     // generated modules: any subset / order of API imports, foreign imports, own code
-    for _ in 0..(n / 12).max(3) {
+    let string_carrying = ["shopify_function_input_read_utf8_str", "shopify_function_input_get_obj_prop", "shopify_function_output_new_utf8_str", "shopify_function_intern_utf8_str", "shopify_function_log_new_utf8_str"];
+    for mi in 0..(n / 12).max(4) {
         let mut idx: Vec<usize> = (0..api.len()).collect();
         for i in (1..idx.len()).rev() {
             let j = rng.below(i as u64 + 1) as usize;
             idx.swap(i, j);
         }
-        let keep = rng.range(1, api.len() as u64) as usize;
+        if mi % 4 == 1 {
+            // a guest that uses only scalar functions (no glue is needed, the imports are only renamed)
+            idx.retain(|k| !string_carrying.contains(&api[*k].name.as_str()));
+        }
+        let keep = rng.range(1, idx.len() as u64) as usize;
         idx.truncate(keep);
         // every third generated module imports one of its API functions a second time (valid Wasm)
         let dup = if rng.below(3) == 0 { Some(idx[rng.below(idx.len() as u64) as usize]) } else { None };
@@ -875,7 +880,15 @@ fn cmd_c04(seed: u64, n: u64, ops_path: &str, impl_path: &str) -> Result<()> {
             }
         }
         let sc = gen_scenario(&mut rng, &api, k, None);
-        let run = run_scenario(&eng, wasm, &export, &sc.args, &sc.script, &sc.ginit, &sc.pinit)?;
+        let run = match run_scenario(&eng, wasm, &export, &sc.args, &sc.script, &sc.ginit, &sc.pinit) {
+            Ok(r) => r,
+            Err(e) => {
+                // e.g. an import left under its public name: a provider offers only the low-level names
+                total += 1;
+                oracle_failures.push(format!("{} via {}: the trampolined module cannot be run against the provider: {:#}", api[k].name, export, e).chars().take(400).collect());
+                continue;
+            }
+        };
         let exp = oracle(&api[k], &sc.args, &sc.script, &run.guest0, &run.prov0);
         total += 1;
         *hist.entry(format!("fn:{}", api[k].name)).or_insert(0) += 1;
